@@ -50,7 +50,7 @@ def heap_set(interp, vid, items):
 def new_vec(interp, items=()):
     n = interp.mstate.get("next_vec", 0)
     interp.mstate["next_vec"] = n + 1
-    vid = "v%d" % n
+    vid = "tmp%d" % n
     heap_set(interp, vid, items)
     return Vec(vid)
 
@@ -144,7 +144,7 @@ def iter_items(interp, env, v):
     if isinstance(v, It):
         return list(v.items)
     if isinstance(v, Vec):
-        by_value = isinstance(v0, Vec)
+        by_value = isinstance(v0, Vec) and not v0.borrowed
         items = heap_get(interp, v.vid)
         if by_value:
             return list(items)
